@@ -141,9 +141,8 @@ let quant_of (w : string) : quant =
   | [ "nm"; n; m ] -> QNM (cps_of n, cps_of m)
   | _ -> raise (Bad ("quantifier " ^ w))
 
-let parse_re (s : string) : re =
+let parse_re_from (s : string) (pos : int ref) : re =
   let n = String.length s in
-  let pos = ref 0 in
   let peek () = if !pos < n then s.[!pos] else '\000' in
   let expect c = if peek () = c then incr pos else raise (Bad (Printf.sprintf "expected %c at %d" c !pos)) in
   let word () =
@@ -225,9 +224,55 @@ let parse_re (s : string) : re =
       | "nwordb" -> RNotWordB
       | _ -> raise (Bad ("node " ^ w))
   in
-  let r = re () in
-  if !pos <> n then raise (Bad "trailing text after the tree");
+  re ()
+
+let parse_re (s : string) : re =
+  let pos = ref 0 in
+  let r = parse_re_from s pos in
+  if !pos <> String.length s then raise (Bad "trailing text after the tree");
   r
+
+(* composition terms (stream c21.compose):  T ::= L(<flags>;<re>) | P(T,T) | R(<digits>;T) *)
+let parse_term (s : string) : C21_Compose.cterm =
+  let n = String.length s in
+  let pos = ref 0 in
+  let peek () = if !pos < n then s.[!pos] else '\000' in
+  let expect c = if peek () = c then incr pos else raise (Bad (Printf.sprintf "term: expected %c at %d" c !pos)) in
+  let word () =
+    let st = !pos in
+    while !pos < n && not (Stdlib.List.mem s.[!pos] [ '('; ')'; ','; ';' ]) do
+      incr pos
+    done;
+    String.sub s st (!pos - st)
+  in
+  let rec term () : C21_Compose.cterm =
+    let w = word () in
+    expect '(';
+    let t =
+      match w with
+      | "L" ->
+          let f = flags_of (word ()) in
+          expect ';';
+          let a = parse_re_from s pos in
+          C21_Compose.CLeaf (f, a)
+      | "P" ->
+          let l = term () in
+          expect ',';
+          let r = term () in
+          C21_Compose.CCat (l, r)
+      | "R" ->
+          let ds = word () in
+          expect ';';
+          let t0 = term () in
+          C21_Compose.CRep (t0, Stdlib.List.map (fun c -> z_of_small (Char.code c)) (Stdlib.List.init (String.length ds) (String.get ds)))
+      | _ -> raise (Bad ("term node " ^ w))
+    in
+    expect ')';
+    t
+  in
+  let t = term () in
+  if !pos <> n then raise (Bad "trailing text after the term");
+  t
 
 (* ---------------------------------------------------------------- oracles *)
 
@@ -258,8 +303,100 @@ let parse_kvs (s : string) : (string * string) list =
 
 let bit b = if b then "1" else "0"
 
+let flag_string (f : flags) : string =
+  let b = Buffer.create 6 in
+  if f.fi then Buffer.add_char b 'i';
+  if f.fm then Buffer.add_char b 'm';
+  if f.fs then Buffer.add_char b 's';
+  if f.fU then Buffer.add_char b 'U';
+  if f.fx then Buffer.add_char b 'x';
+  if f.fa then Buffer.add_char b 'a';
+  if Buffer.length b = 0 then "-" else Buffer.contents b
+
+exception Skip of string
+
+(* c21.compose: the expected verdicts are the denotation of the TERM (cden, Model/C21_Compose.v)
+   computed from the leaf trees; the composed source is never looked at here.
+   A leaf that brings extended mode in (x on the literal or in one of its flag groups) enters with
+   the tree C21_extended_flags_sound gives it - whitespace removed where x is on, x erased - when
+   no `#` stands where x is on; otherwise the case is not evaluated (skip=x-comment).
+   stdout: "se=<bits>/<bits>/..;cf=<flags>"  se: the verdict (cmatches) of every SUBTERM in post-order
+   per subject - leaves first, the term itself last - so that a disagreement can be located at the
+   innermost step that breaks; cf: flags of the composed value *)
+let run_compose (kv : (string * string) list) : string =
+  let t = parse_term (field kv "term") in
+  let tbl = parse_orc (field kv "orc") in
+  let orbit (c : coq_Z) : coq_Z list =
+    match Hashtbl.find_opt tbl (int_of_z c) with Some (o, _) -> Stdlib.List.map z_of_small o | None -> []
+  in
+  let member (key : string) (c : coq_Z) : bool =
+    match Hashtbl.find_opt tbl (int_of_z c) with Some (_, ns) -> Stdlib.List.mem key ns | None -> false
+  in
+  let uni (name : coq_Z list) (c : coq_Z) : bool = member (name_key name) c in
+  let posix (name : coq_Z list) (c : coq_Z) : bool = member ("P/" ^ name_key name) c in
+  let subjects =
+    Stdlib.List.map
+      (fun h -> if h = "e" then [] else Stdlib.List.map z_of_small (utf8_decode (bytes_of_hex h)))
+      (split_nonempty ',' (field kv "subj"))
+  in
+  let cf = flag_string (C21_Compose.cflags t) in
+  let rec norm (t : C21_Compose.cterm) : C21_Compose.cterm =
+    match t with
+    | C21_Compose.CLeaf (f, a) ->
+        if f.fx || mentions_x a then
+          if C21_RegexExt.comment_free f a then C21_Compose.CLeaf (C21_RegexExt.erase_x f, C21_RegexExt.strip_x f a)
+          else raise (Skip "x-comment")
+        else t
+    | C21_Compose.CCat (l, r) ->
+        let l' = norm l in
+        let r' = norm r in
+        C21_Compose.CCat (l', r')
+    | C21_Compose.CRep (t0, n) -> C21_Compose.CRep (norm t0, n)
+  in
+  try
+    let t = norm t in
+    (* every subterm in post-order (the last one is the term itself) *)
+    let rec post (t : C21_Compose.cterm) (acc : C21_Compose.cterm list) : C21_Compose.cterm list =
+      match t with
+      | C21_Compose.CLeaf _ -> t :: acc
+      | C21_Compose.CCat (l, r) -> t :: post r (post l acc)
+      | C21_Compose.CRep (t0, _) -> t :: post t0 acc
+    in
+    let subs = Stdlib.List.rev (post t []) in
+    let se =
+      String.concat "/"
+        (Stdlib.List.map
+           (fun u ->
+             let b = String.concat "" (Stdlib.List.map (fun s -> bit (C21_Compose.cmatches orbit uni posix s u)) subjects) in
+             if b = "" then "-" else b)
+           subs)
+    in
+    (* diag=1 (diagnosis of a failing case): the match RELATION of every subterm on every subject - row i is
+       cden applied to the singleton start set {i}; same encoding as the harness' rel= field *)
+    let rel =
+      if field kv "diag" <> "1" then ""
+      else
+        ";re="
+        ^ String.concat "/"
+            (Stdlib.List.map
+               (fun u ->
+                 String.concat ","
+                   (Stdlib.List.map
+                      (fun s ->
+                        let n = Stdlib.List.length s in
+                        String.concat "."
+                          (Stdlib.List.init (n + 1) (fun i ->
+                               let x0 = Stdlib.List.init (n + 1) (fun j -> j = i) in
+                               String.concat "" (Stdlib.List.map bit (C21_Compose.cden orbit uni posix s u x0)))))
+                      subjects))
+               subs)
+    in
+    Printf.sprintf "se=%s;cf=%s%s" se cf rel
+  with Skip why -> Printf.sprintf "se=-;cf=%s;skip=%s" cf why
+
 let run (input : string) : string =
   let kv = parse_kvs input in
+  if field kv "term" <> "" then run_compose kv else
   match field kv "ast" with
   | "ERR" -> "parse-error"
   | "HANG" -> "skipped-unterminated-comment-group"
